@@ -45,6 +45,7 @@ S0(P) == [ now   |-> Zero,
            he    |-> [h \in Hosts(P) |-> Zero],
            le    |-> [l \in Links(P) |-> Zero],
            rate  |-> [a \in Acts(P) |-> Zero],      \* rates during the interval that just elapsed (observation)
+           whole |-> TRUE,                          \* every I/O has progressed by a whole number of bytes at every step so far
            steps |-> 0 ]
 
 SetSum(F(_), S) == LET RECURSIVE Sm(_)
@@ -80,7 +81,11 @@ Uses(P, a) == LET x == P.acts[a] IN
               CASE x.kind = "exec" -> {<<"h", x.host>>}
                 [] x.kind = "comm" -> {<<"l", x.links[i]>> : i \in 1..Len(x.links)}
                 [] x.kind = "io"   -> {<<"d", x.disk, "g">>, <<"d", x.disk, IF x.op = "read" THEN "r" ELSE "w">>}
-Cap(P, s, c) == CASE c[1] = "h" -> RMulI(Speed(P, s, c[2]), P.hosts[c[2]].cores)
+\* current capacity of a host: cores * peak speed of the current pstate * availability scale of the current date.  It
+\* changes at the points of the speed profile and at the scripted pstate events; every such date is a step of the
+\* timeline (Candidates), so that the capacity is constant between two steps and the running execs are re-shared there.
+HostCap(P, s, h) == RMulI(Speed(P, s, h), P.hosts[h].cores)
+Cap(P, s, c) == CASE c[1] = "h" -> HostCap(P, s, c[2])
                   [] c[1] = "l" -> Bw(P, s, c[2])
                   [] c[1] = "d" -> DiskCap(P, c[2], c[3])
 ResOn(P, s, c) == CASE c[1] = "h" -> HostOn(P, s, c[2]) [] c[1] = "l" -> LinkOn(P, s, c[2]) [] OTHER -> TRUE
@@ -172,6 +177,12 @@ Advance(P, s, r, T) ==
             !.got = [a \in Acts(P) |-> IF s.ast[a] = "run" THEN RAdd(s.got[a], RMul(r[a], d)) ELSE s.got[a]],
             !.he  = [h \in Hosts(P) |-> Grow(s.he[h], HostWatts(P, s, r, h), d)],
             !.le  = [l \in Links(P) |-> Grow(s.le[l], LinkWatts(P, s, r, l), d)],
+            \* The timeline is a fluid one; the disk model counts whole bytes (the progress of every step is rounded to the
+            \* nearest byte).  `whole` tells how long the two coincide: as long as it holds, the fluid values are integral at
+            \* every step and the rounding changes nothing; from the first step where it fails on, the disk model may be off
+            \* by half a byte per step and I/O (the checks then compare I/Os within a bound derived from that).
+            !.whole = IF s.whole THEN { a \in Acts(P) : s.ast[a] = "run" /\ P.acts[a].kind = "io" /\ Den(RMul(r[a], d)) # 1 } = {}
+                      ELSE FALSE,
             !.rate = r, !.steps = s.steps + 1]
 
 Complete(P, s) ==
@@ -266,6 +277,12 @@ EqualExecsR(P, s, r) ==
 TimelineInvR(P, s, r) == FeasibleR(P, s, r) /\ Conservation(P, s) /\ EqualExecsR(P, s, r)
 TimelineInv(P, s) == B1(LAMBDA r : TimelineInvR(P, s, r), Rates(P, s))
 
+\* C21, as observed when the clock has just moved from the settled state s to pre = PreR(P, s, r): the loads shown by the
+\* rates of the elapsed interval stay within the capacities that were in force during that interval, i.e. those of s (at
+\* the new date the capacity may already be another one: the profile points of the new date act from that date on)
+LoadWithin(P, s, pre) ==
+  /\ \A h \in Hosts(P) : RLe(Delivered(P, s, pre.rate, h), HostCap(P, s, h))
+  /\ \A l \in Links(P) : RLe(Usage(P, s, pre.rate, l), Bw(P, s, l))
 \* action properties between s and its successor t: remaining never increases, energy never decreases, time moves on
 Monotone(P, s, t) == /\ RLt(s.now, t.now)
                      /\ \A a \in Acts(P) : RLe(t.rem[a], s.rem[a])
